@@ -284,6 +284,7 @@ class MQTTBaseProtocol(Protocol):
         self.IDLE        = IdleState(self)
         self.CONNECTING  = ConnectingState(self)
         self.CONNECTED   = ConnectedState(self)
+        self.CLOSING     = BaseState(self)  # after DISCONNECT: refuses every operation
         self.state       = self.IDLE
         self.factory     = factory
         self._initialT   = self.TIMEOUT_INITIAL # Initial timeout for retransmissions
@@ -511,12 +512,7 @@ class MQTTBaseProtocol(Protocol):
 
     def connectionLost(self, reason):
         log.debug("--- Connection to MQTT Broker lost")
-        if self._pingReq.timer:
-            self._pingReq.timer.stop()
-            self._pingReq.timer = None
-        if self._pingReq.alarm:
-            self._pingReq.alarm.cancel()
-            self._pingReq.alarm = None
+        self._stopKeepalive()
         # back to IDLE first: errbacks fired by the clean-up below may call the API
         self.state = self.IDLE
         self.doConnectionLost(reason)
@@ -674,6 +670,11 @@ class MQTTBaseProtocol(Protocol):
         '''
         log.debug("==> {packet:7}",packet="DISCONNECT")
         self.transport.write(request.encode())
+        # DISCONNECT is the last packet of a connection and the transport may
+        # take a while to report the loss: nothing must be written meanwhile
+        self.state = self.CLOSING
+        self._stopKeepalive()
+        self.doDisconnected()
         self.transport.loseConnection()
 
     # ------------------------------------------------------------------------
@@ -725,9 +726,30 @@ class MQTTBaseProtocol(Protocol):
         '''
         pass
 
+    # ------------------------------------------------------------------------
+
+    def doDisconnected(self):
+        '''
+        To be subclassed. Called after DISCONNECT has been written.
+        '''
+        pass
+
     # --------------
     # Helper methods
     # --------------
+
+    def _stopKeepalive(self):
+        '''
+        Stop sending PINGREQ packets and waiting for PINGRESP
+        '''
+        if self._pingReq.timer:
+            self._pingReq.timer.stop()
+            self._pingReq.timer = None
+        if self._pingReq.alarm:
+            self._pingReq.alarm.cancel()
+            self._pingReq.alarm = None
+
+    # ------------------------------------------------------------------------
 
     def _checkConnect(self, request):
         '''
